@@ -6,6 +6,7 @@ import random
 import common
 import hyd
 import netgen
+import runsim
 
 
 # ----------------------------------------------------------------------------- bucket family (TankCtl.tla): M + R
@@ -149,6 +150,13 @@ def main(tier, replay):
     if not replay:
         nb = bucket_family(ck, tier, rnd)
         ck.cov["traces_validated_against_impl"] += ck.cov["counters"].get("bucket_runs", 0)
+        # the whole control loop (RunSim.tla): level controls together with time controls and rules on the same links
+        rs = runsim.scenarios(rnd, 320 if tier == "quick" else 10000)
+        ck.cov["traces_validated_against_impl"] += runsim.family(ck, "C05", rs)
+        runsim.selftest(ck, rs)
+    if replay and "runsim" in common.load_replay(replay)["detail"]:
+        runsim.family(ck, "C05", [common.load_replay(replay)["detail"]["runsim"]])
+        return ck.finish()
     if replay and "bucket" in common.load_replay(replay)["detail"]:
         b = common.load_replay(replay)["detail"]["bucket"]
         exp, bad = bucket_expected([b], ck)
